@@ -216,6 +216,26 @@ Section Brp.
       + unfold brp_skip. rewrite Hv. unfold ld_read_size. cbn. discriminate.
   Qed.
 
+  (* ---- the end of the stream is a terminal state: calling again answers io.EOF again ---- *)
+  Lemma next_block_at_end o : next_block hok o [] = Err EEof.
+  Proof. reflexivity. Qed.
+  Lemma next_block_root_at_end : next_block_root hok [] = Err EEof.
+  Proof. reflexivity. Qed.
+  Lemma again_next_at_end o : forall k, again_next hok k o [] = repeat tag_eof k.
+  Proof. induction k as [|k IH]; [reflexivity|]. cbn [again_next repeat]. cbn. f_equal. exact IH. Qed.
+  Lemma brp_at_end o st : vis st = [] ->
+    brp_next hok o st = Err EEof /\ brp_skip o st = Err EEof /\ end_state EEof st = st.
+  Proof.
+    intros Hv. unfold brp_next, brp_skip, end_state. rewrite Hv. repeat split; reflexivity.
+  Qed.
+  (* ... so a walk that has exhausted the stream keeps answering EOF, whatever is called and however often *)
+  Lemma brp_walk_at_end o : forall w st, vis st = [] -> w <> [] ->
+    brp_walk hok o w st = ([], (Some EEof, st)).
+  Proof.
+    intros w st Hv Hw. destruct w as [|ch w]; [congruence|]. cbn [brp_walk].
+    destruct (brp_at_end o st Hv) as (Hn & Hs & He). destruct ch; [rewrite Hn|rewrite Hs]; rewrite He; reflexivity.
+  Qed.
+
   (* ---- the entry point ---- *)
   Theorem tot_brskip_total o seek file w :
     o_maxh o <= go_max_alloc -> o_maxs o <= go_max_alloc -> (length file < length w)%nat ->
